@@ -1249,6 +1249,14 @@ class ConnModel(ExtModel):
         self.world.ctrl_sent.append((self.side, a[0]))
 
     def m_recv(self, it, a, k):
+        if self.side == "parent":
+            # the portfolio waits for an answer of the surviving member of the last race
+            w = self.world
+            alive = [p for p in w.processes if p.started and not p.terminated and w.behaviours[p.index] == "T"
+                     and w.alive_after.get(p.index, True)]
+            if not alive:
+                raise Unsupported("control pipe: the portfolio waits for an answer but no member of the last race is alive to give one (blocks forever)")
+            return w.ctrl_reply
         # a member that reads its control pipe is alive and waiting for the parent
         self.world.recv_reached = True
         raise AbsRaise("EOFError", ())
@@ -1311,6 +1319,8 @@ class PortfolioWorld(World):
         self.ctrl_sent = []
         if not hasattr(self, "alive_after"):
             self.alive_after = {}
+        if not hasattr(self, "ctrl_reply"):
+            self.ctrl_reply = None
         self.recv_reached = False
 
     def queue_of(self, member, default):
@@ -1489,6 +1499,38 @@ def _portfolio_chunk(job):
                         if res2 != ("ret", False):
                             problems.append("second solve, after the assertions changed: members answer False but solve %s %r "
                                             "(an answer of the previous race is taken)" % ("returns" if res2[0] == "ret" else "raises", res2[1]))
+                    if not problems and answering and not exit_on_exception and optset is None and all(b_ == "T" for b_ in beh) and not any(gaps):
+                        # a later race in which every member fails: solve raises, and a value asked for afterwards is an
+                        # error too - not a request nobody will ever answer
+                        w.late_arrivals()
+                        failing = tuple("X" for _ in beh)
+                        behaviour.update(zip(names, failing))
+                        it.call(it.getattr(pf, "add_assertion"), [w.app("Not", w.app("Not", f))])
+                        msgsx = {}
+                        for i, nm in enumerate(names):
+                            w.puts = []
+                            it.call(run_solver, ["%d (%s)" % (i, nm), nm, logic, dict(member_opts[i]), f, QueueModel(w), ConnModel(w, "child")])
+                            msgsx[i] = w.puts[0] if w.puts else None
+                        w.reset_run([("msg", i, msgsx[i]) for i in order], list(failing), {})
+                        w.alive_after = {}
+                        w.env.attrs["_factory"] = factory
+                        try:
+                            r3 = it.call(it.getattr(pf, "solve"), [])
+                            problems.append("every member fails in a later race but solve returns %r" % (r3,))
+                        except AbsRaise:
+                            w.ctrl_reply = w.mgr.attrs["true_formula"]
+                            try:
+                                it.call(it.getattr(pf, "get_value"), [f])
+                                problems.append("after a race in which every member failed get_value returns a value")
+                            except AbsRaise:
+                                pass
+                            except Unsupported as ex:
+                                if "blocks forever" in str(ex):
+                                    problems.append("after a race in which every member failed, get_value sends its request to the members of "
+                                                    "that race and waits: nobody is alive to answer, the call blocks forever")
+                                else:
+                                    raise
+                        behaviour.update(zip(names, base))
                     out.append((beh, order, gaps, "ok" if not problems else "bad", problems[0] if problems else ""))
             except AbsRaise as ex:
                 out.append((beh, order, gaps, "raise", "%s%s" % (ex.cls_name, proc._args(ex))))
